@@ -141,10 +141,62 @@ static Outcome ZooLeg(RunCtx& ctx, int archive)
 	return out;
 }
 
+// Save leg: byte strings as programs really hold them - a std::string is not always well-formed UTF-8 (Latin-1 bytes, a text cut
+// in the middle of a character). Whatever saving to memory does with such a value (write it through, report an encoding error),
+// saving to a UTF-8 stream without BOM must do the same: same outcome category, same bytes.
+static Outcome RawBytesSaveLeg(RunCtx& ctx, int archive)
+{
+	Source& s = ctx.src;
+	// KF-JSON-SAVE-ILLFORMED-UTF8: the JSON stream writer validates UTF-8 (it transcodes), the JSON memory writer copies the bytes;
+	// 63 of 64 runs stay outside the region
+	if (archive == A_JSON && !s.chance(sim::L_CFG, 1, 64)) archive = A_XML;
+	ArchiveOps& ops = GetOps(archive);
+	const std::string an = ArchiveName(archive);
+	SerializationOptions o = GenLoadOptions(s, sim::L_CFG, archive);
+	Outcome out;
+	out.cfgKey = an + "|rawsave";
+	ctx.count("leg.raw_bytes_save");
+	GenCfg g;
+	g.archive = archive;
+	g.maxNodes = 16;
+	g.maxStr = 60;
+	if (archive == A_CSV) g.allowEmptyContainers = false;
+	DynNode doc = GenDocument(s, sim::L_DOC, g);
+	uint32_t spoiled = 0;
+	ForEachNode(doc, [&](DynNode& n)
+	{
+		if (n.kind != K::Str || !s.chance(sim::L_FAULT, 1, 2)) return;
+		static const char* const tails[] = { "caf\xE9", "na\xC3", "\xED\xA0\x80", "\xFF", "\xF0\x9F\x98", "ok\x80ok" };
+		n.s += s.pick(sim::L_FAULT, tails);
+		++spoiled;
+	});
+	if (!spoiled) return out;
+	std::string mem, str;
+	sim::steps_begin(kBlocksPerByte * 65536);
+	const CallResult rm = SaveDynWith(ops, doc, mem, o, OutCfg{});
+	sim::steps_end();
+	OutCfg oc;
+	oc.stream = true;
+	static const uint32_t bufs[] = { 0, 1, 7, 4096 };
+	oc.bufSize = s.pick(sim::L_IO, bufs);
+	sim::steps_begin(kBlocksPerByte * 65536);
+	const CallResult rs = SaveDynWith(ops, doc, str, o, oc);
+	sim::steps_end();
+	ctx.note("raw-bytes save leg: archive=" + an + " ill-formed strings=" + std::to_string(spoiled) + " memory: " + rm.cat + " stream(" + oc.str() + "): " + rs.cat + " options: " + OptStr(o));
+	const std::string tags = "archive=" + an + " dir=save leg=rawbytes m=" + rm.cat + " s=" + rs.cat;
+	if (!rm.isStd || !rs.isStd) return Violation("WRONG_EXCEPTION", tags, "non-std exception from SaveObject");
+	if (rm.ok != rs.ok || (!rm.ok && rm.cat != rs.cat)) return Violation("DIVERGENCE", tags + " what=outcome", "saving a value with ill-formed UTF-8: memory=" + rm.cat + " (" + rm.what + ") stream=" + rs.cat + " (" + rs.what + ")");
+	if (rm.ok && mem != str) return Violation("DIVERGENCE", tags + " what=bytes", "stream save differs from memory save: " + DiffAt(sim::hex(mem, 4096), sim::hex(str, 4096)));
+	out.nontrivial = true;
+	sim::probe("illformed-bytes-saved-both-ways");
+	return out;
+}
+
 Outcome RunC10(RunCtx& ctx)
 {
 	Source& s = ctx.src;
 	const int archive = static_cast<int>(s.draw(sim::L_CFG, A_COUNT));
+	if (s.chance(sim::L_CFG, 1, 24)) return RawBytesSaveLeg(ctx, archive);
 	if (s.chance(sim::L_CFG, 1, 64)) return SizeClassLeg(ctx, archive);
 	if (s.chance(sim::L_CFG, 1, 6)) return ZooLeg(ctx, archive);
 	ArchiveOps& ops = GetOps(archive);
